@@ -191,6 +191,7 @@ class OverlapMeasures:
                     if tier == "quick" and D == 3 and weight:
                         continue
                     yield {"D": D, "fn": fn, "weight": weight}
+                yield {"D": D, "fn": fn, "weight": False, "identical_any": True}
 
     def run(self, case, K):
         import deepali.losses.functional as L
@@ -198,6 +199,18 @@ class OverlapMeasures:
         D, fname = case["D"], case["fn"]
         shape = SHAPES[D]
         N, C = 2, 1
+        if case.get("identical_any"):
+            # identical binary segmentations - empty ones included - with the default epsilon
+            C = 2
+            ep = K.binaries("p", (N, C) + shape)
+            if K.mode == "conc":  # make one (item, channel) empty in the bounded runs
+                for idx in np.ndindex(*shape):
+                    K.env[f"p[0,1,{','.join(map(str, idx))}]"] = Fraction(0)
+            r = K.call(getattr(L, fname), K.tensor(ep), K.tensor(ep), reduction="none")
+            if K.ensure_returns(r):
+                K.ensure_eq("identical-any", K.val(r).reshape(-1), [0 if fname.endswith("loss") else 1] * (N * C),
+                            text=Q16O + " [identical segmentations, empty channels included, default epsilon]", tol=1e-6)
+            return
         ep, ey = K.binaries("p", (N, C) + shape), K.binaries("y", (N, C) + shape)
         # non-empty segmentations
         for n in range(N):
